@@ -1,7 +1,7 @@
 SPECIFICATION LSpec
 CONSTANTS
   MaxPieces = 2
-  MaxPhrase = 4
+  MaxPhrase = 3
   MaxTmpl = 0
   Hosts = {"out", "assign", "if", "unless", "for", "tablerow", "when", "case", "cycle", "include", "render", "increment", "capture", "break", "ifchanged"}
   EmitAll = TRUE
